@@ -464,8 +464,9 @@ def canon_model_rows(rows, cfg):
             out.append(("raw", (t * 80)[:80] if t else ""))
             continue
         t = strip_ansi(t.encode("utf-8", "surrogateescape")).decode("utf-8", "replace")
-        if t == "" and pk in ("raw", "zero", "minus", "plus", "commit", "file", "hunkHeader"):
-            # painting an empty text produces no SGR at all: the row is an empty line
+        if t == "" and pk in ("raw", "zero", "minus", "plus"):
+            # hunk lines paint nothing for an empty text: the row is an empty line. (Header rows go
+            # through draw.rs, which paints even an empty text, so they keep their colour.)
             pk = "blank"
         t = canon_text(pk, t)
         out.append((pk, t))
